@@ -86,9 +86,18 @@ def scenario_for(seed, index, tier):
     login = ([['compress', compress]] if compress is not None else []) + \
         [['success']]
     answers = sum(1 for it in hist if it[0] in ('ka', 'pos'))
+    flood = None
+    n_real = sum(1 for it in hist if it[0] != 'pause')
+    if not kick and not user_packets and n_real >= 2 and \
+            rng.random() < 0.12:
+        # the application reacts to one packet by queuing a large burst of
+        # its own while answers to neighbouring packets are still queued
+        flood = {'at': rng.randint(1, n_real),
+                 'n': rng.choice([60, 400, 1200, 3000])}
     play = list(hist)
-    if user_packets:
-        play.append(['expect', answers + user_packets])
+    if user_packets or flood:
+        play.append(['expect', answers + user_packets +
+                     (flood['n'] if flood else 0)])
     reason = rng.choice(['{"text":"end of history"}',
                          '{"text":"end of history"}',
                          '{"translate":"disconnect.closed"}',
@@ -109,7 +118,7 @@ def scenario_for(seed, index, tier):
         slow = {'every': rng.choice([1, 3, 10]),
                 'us': rng.choice([1000, 30000, 200000])}
     return {
-        'slow_listener': slow,
+        'slow_listener': slow, 'flood': flood,
         'proto': proto, 'compress': compress, 'history': hist,
         'user_packets': user_packets, 'kick': kick, 'reason': reason,
         'server': {'conns': [{'login': login, 'play': play}]},
@@ -151,6 +160,11 @@ def execute(scenario, tape):
                 sl = scenario.get('slow_listener')
                 if sl and len(st['log']) % sl['every'] == 0:
                     w.sleep(sl['us'])
+                fl = scenario.get('flood')
+                if fl and len(st['log']) == fl['at']:
+                    for i in range(fl['n']):
+                        conn.write_packet(serverbound.play.ChatPacket(
+                            message='f%d' % i))
         conn.register_packet_listener(on_packet, Packet, early=True)
 
         def user():
@@ -302,9 +316,13 @@ def check(scenario, w, st, res, ids):
         if st.get('spawned') is not True:
             V.append(('C11/not-spawned', st.get('spawned')))
     # user packets: all, once, in order
-    if scenario['user_packets']:
+    if scenario['user_packets'] or scenario.get('flood'):
         want = [wire.string('u%d' % i)
-                for i in range(scenario['user_packets'])]
+                for i in range(scenario['user_packets'])] + \
+            [wire.string('f%d' % i)
+             for i in range((scenario.get('flood') or {'n': 0})['n'])]
+        if scenario.get('flood'):
+            res.probes['listener-queued-a-burst'] = 1
         got = [b for _s, pid, b in frames if pid == ids['sb.play.chat']]
         ob(len(want))
         if got != want:
@@ -338,9 +356,16 @@ def shrink_scenario(sc):
 
     def rebuilt(c):
         answers = sum(1 for it in c['history'] if it[0] in ('ka', 'pos'))
+        if c.get('flood'):
+            n_real = sum(1 for it in c['history'] if it[0] != 'pause')
+            if n_real == 0:
+                c['flood'] = None
+            else:
+                c['flood']['at'] = min(c['flood']['at'], n_real)
         play = list(c['history'])
-        if c['user_packets']:
-            play.append(['expect', answers + c['user_packets']])
+        if c['user_packets'] or c.get('flood'):
+            play.append(['expect', answers + c['user_packets'] +
+                         (c['flood']['n'] if c.get('flood') else 0)])
         play.append(['disconnect', c.get('reason',
                                          '{"text":"end of history"}')])
         if c.get('kick'):
@@ -361,6 +386,10 @@ def shrink_scenario(sc):
     if sc['user_packets']:
         c = copy.deepcopy(sc)
         c['user_packets'] = 0
+        yield rebuilt(c)
+    if sc.get('flood') and sc['flood']['n'] > 60:
+        c = copy.deepcopy(sc)
+        c['flood']['n'] = max(sc['flood']['n'] // 2, 60)
         yield rebuilt(c)
     if sc['compress'] is not None:
         c = copy.deepcopy(sc)
